@@ -340,3 +340,65 @@ M("c17-subscriber-reraise", ["C17"], [(MWARE, '''                logger.exceptio
 M("c17-subscriber-narrow-handler", ["C17"], [(MWARE, "            except Exception:  # noqa: BLE001\n                logger.exception(", "            except ValueError:\n                logger.exception(")], "R-C17-ISOLATE")
 M("c17-consumer-emitter-dropped", ["C17"], [("repid/connections/abc.py", "        consumer._signal_emitter = self._signal_emitter\n", "")], "R-C17-EMITTER-OWN")
 R("c17-r-result-subscript", ["C17"], [(WRAP, '        signal_kwargs.update({"result": result})\n', '        signal_kwargs["result"] = result\n')])
+
+# ----------------------------------------------------------------------------------------------- C19 / C20
+RP = "repid/retry_policy.py"
+HC = "repid/health_check_server.py"
+WK = "repid/worker.py"
+M("c19-clamp-order", ["C19"], [(RP, '''        backoff = min(multiplier * 2**exponent, max_backoff)
+        return timedelta(seconds=max(min_backoff, backoff))''', '''        backoff = max(min_backoff, multiplier * 2**exponent)
+        return timedelta(seconds=min(backoff, max_backoff) + min_backoff)''')], "R-C19-BACKOFF")
+M("c19-exponent-unbounded", ["C19"], [(RP, "        exponent = min(retry_number, max_exponent)\n", "        exponent = retry_number\n")], "R-C19-BACKOFF")
+M("c19-no-lower-clamp", ["C19"], [(RP, "return timedelta(seconds=max(min_backoff, backoff))", "return timedelta(seconds=backoff)")], "R-C19-BACKOFF")
+M("c19-overdue-ge", ["C19", "C12"], [(PAR, "return datetime.now(tz=self.timestamp.tzinfo) > self.timestamp + self.ttl", "return datetime.now(tz=self.timestamp.tzinfo) >= self.timestamp + self.ttl")], None)
+M("c19-job-overdue-timestamp-only", ["C19", "C12"], [("repid/job.py", "return datetime.now(tz=self.timestamp.tzinfo) > self.timestamp + self.ttl", "return datetime.now(tz=self.timestamp.tzinfo) > self.timestamp")], None)
+M("c19-period-no-plus-one", ["C19", "C06"], [(PAR, "defer_by_times = (now - self.timestamp) // self.delay.defer_by + 1", "defer_by_times = (now - self.timestamp) // self.delay.defer_by")], "R-C19-PERIOD")
+R("c19-r-backoff-inline", ["C19"], [(RP, '''        exponent = min(retry_number, max_exponent)
+        backoff = min(multiplier * 2**exponent, max_backoff)
+        return timedelta(seconds=max(min_backoff, backoff))''', '''        return timedelta(seconds=max(min(max_backoff, 2 ** min(max_exponent, retry_number) * multiplier), min_backoff))''')])
+R("c19-r-period-commuted", ["C19", "C06"], [(PAR, '''            defer_by_times = (now - self.timestamp) // self.delay.defer_by + 1
+            time_offset = self.delay.defer_by * defer_by_times
+            return self.timestamp + time_offset''', '''            periods = 1 + (now - self.timestamp) // self.delay.defer_by
+            return periods * self.delay.defer_by + self.timestamp''')])
+M("c20-pair-fix-reverted", ["C20"], [(WK, '''        try:
+            return await self._run()
+        finally:
+            # the port must not stay open after the run is over, whichever way it ends
+            if self.health_check_server is not None:
+                await asyncio.wait_for(
+                    self.health_check_server.stop(),
+                    timeout=self.graceful_health_check_server_finish_time,
+                )
+''', '''        runner = await self._run()
+        if self.health_check_server is not None:
+            await asyncio.wait_for(
+                self.health_check_server.stop(),
+                timeout=self.graceful_health_check_server_finish_time,
+            )
+        return runner
+''')], "R-C20-PAIR")
+M("c20-status-captured-at-start", ["C20"], [(HC, '''            self._server = await loop.create_server(
+                lambda: _HttpServerProtocol(
+                    endpoint_name=self.server_settings.endpoint_name,
+                    status=self.health_status,
+                ),''', '''            status = self.health_status
+            self._server = await loop.create_server(
+                lambda: _HttpServerProtocol(
+                    endpoint_name=self.server_settings.endpoint_name,
+                    status=status,
+                ),''')], "R-C20-FRESH")
+M("c20-unhealthy-on-normal-stop", ["C20"], [(RUN, '''        if (
+            consume_task.done()
+            and not consume_task.cancelled()
+            and (exc := consume_task.exception()) is not None
+        ):''', '''        exc = None
+        if consume_task.done():''')], "R-C20-STATUS-OWN")
+M("c20-404-for-get-only", ["C20"], [(HC, 'if method == "GET" and path == self.endpoint_name:', 'if method == "GET" or path == self.endpoint_name:')], "R-C20-TABLE")
+M("c20-status-reset-ok", ["C20"], [(RUN, "        await consumer.pause()\n        return consumer", "        if self._health_check_server is not None:\n            self._health_check_server.health_status = HealthCheckStatus.OK\n        await consumer.pause()\n        return consumer")], "R-C20-STATUS-OWN")
+M("c20-server-not-handed-to-runner", ["C20"], [(WK, "            health_check_server=self.health_check_server,\n", "")], "R-C20-STATUS-OWN")
+R("c20-r-stop-without-wait_for", ["C20"], [(WK, '''                await asyncio.wait_for(
+                    self.health_check_server.stop(),
+                    timeout=self.graceful_health_check_server_finish_time,
+                )
+''', '''                await self.health_check_server.stop()
+''')])
